@@ -80,6 +80,18 @@ CHECKS = {
          "Fault points are the user-code hooks named above (slot functions via fills); programs whose fault-free render raises or touches a zone are skipped; "
          "memory judged by weakrefs + gc object counts with 40 objects tolerance; sampled programs (not exhaustive over programs).",
          "§4 C06"),
+ "C07": ("model_checking",
+         "TLC exploration of every interleaving of critical sections in DjcShared.tla + replay of every exported schedule on the real library by a cooperative scheduler + seeded fine-grained schedules (pre-emption before every shared-registry operation / watched source line) compared with solo runs",
+         "DjcShared.tla models 2-3 threads executing render workloads (provider+consumer, failing consumer, host component, consumer without provider) over "
+         "the shared provide registries, one step per critical section; TLC explores every interleaving, checks InjectSound / NoCrossTalk / Quiescent and "
+         "refutes the pre-fix variant (vacuity guard). Every complete schedule TLC exports is replayed by a cooperative scheduler that parks each real "
+         "thread at the entry of each critical section; per-thread output / exception must equal the solo run and nothing may be left in the registries. "
+         "Fine-grained exploration (traced dict/set registries, cooperative locks, sys.settrace on util/cache.py, cache.py, template.py, "
+         "component_media.py) covers all 1-2 pre-emption schedules of the classic pair, random priorities for 2-3 threads, first compiles through a template "
+         "cache of size 1-2 (LRU structure projected afterwards) and first access of a class's media.",
+         "Each dict/set operation is taken as atomic (GIL); only one thread runs at a time under the scheduler, so true parallel memory effects are out of "
+         "scope; benign double initialisation of lazy caches is admitted; quick samples the exported schedules per workload tuple.",
+         "§4 C07, A.3"),
  "C08": ("model_checking",
          "TLC enumeration of documents (segment sequences) of DepsInsert.tla with admissible outputs + implementation-shaped DepsInsertImpl refinement + replay through render_dependencies / middleware + TLC trace validation",
          "DepsInsert.tla specifies Expected(doc, mode) over segments Txt / HeadEnd / BodyEnd / CssPh / JsPh / Marker (markers and placeholders removed, tags at "
